@@ -18,6 +18,9 @@ at the top-level directory.
 #include <stdlib.h>
 #include <stdio.h>
 #include "slu_mt_ddefs.h"
+#ifdef SLU_MT_VERIF
+#include "slu_mt_verif.h"
+#endif /* SLU_MT_VERIF */
 
 #define XPAND_HINT(memtype, new_next, jcol, param) {\
 fprintf(stderr, "Storage for %12s exceeded; Current column " IFMT "; Need at least " IFMT ";\n",\
@@ -125,6 +128,9 @@ Glu_alloc(
 	else fsupc = jcol;
 	*prev_next = Glu->map_in_sup[fsupc];
 	Glu->map_in_sup[fsupc] += num;
+#ifdef SLU_MT_VERIF
+	SLUV_EVENT(SLUV_E_ALLOC_LUSUP, pnum, jcol, fsupc, *prev_next, num, Glu->nzlumax);
+#endif /* SLU_MT_VERIF */
 
 #if 0
 	{
@@ -285,6 +291,9 @@ DynamicSetMap(
 	    XPAND_HINT("L supernodes", new_next, jcol, 6);
 	}
 	Glu->nextlu = new_next;
+#ifdef SLU_MT_VERIF
+	SLUV_EVENT(SLUV_E_DYN_SETMAP, pnum, jcol, nextlu, num, Glu->nzlumax, 0);
+#endif /* SLU_MT_VERIF */
     } /* end of critical region */
 
 #if ( MACH==SUN )
